@@ -238,3 +238,35 @@ def flag_regions(body, calls, full=False):
             return (f, d, readers, trues)
         return (f, d)
     return None
+
+
+def variant_edges(body, enum_name, variant, place_ok=None):
+    """edges (block, target) taken exactly when a value of enum `enum_name` is `variant`: the arm of a `match` (when no other
+    variant shares its target), or the true / false edge of the bool produced by `matches!(x, Variant(..))` (a SwitchInt on the
+    discriminant that assigns constants to a temporary which the next SwitchInt tests)"""
+    out = []
+    for sw in switches(body):
+        if sw.kind != 'enum' or sw.enum != enum_name or sw.target(variant) is None:
+            continue
+        if place_ok is not None and not place_ok(sw):
+            continue
+        t = sw.target(variant)
+        shared = [o for o, x in sw.edges.items() if x == t and o != variant]
+        if shared:
+            continue
+        # matches!: the arm only assigns a constant bool and joins the other arms at a bool switch
+        stm = body.blocks[t]['stmts']
+        consts = [st for st in stm if st['k'] == 'assign' and not st['lhs'][1] and body.local_ty(st['lhs'][0]) == 'bool' and st['rv']['k'] == 'use' and isinstance((op_const(st['rv']['op']) or {}).get('v'), bool)]
+        succ = body.succ(t)
+        if len(consts) == 1 and len(stm) <= 2 and len(succ) == 1 and body.term(succ[0])['k'] == 'switch':
+            bsw = Switch(body, succ[0])
+            if bsw.kind == 'bool' and switch_reads_local(body, bsw, consts[0]['lhs'][0]):
+                val = op_const(consts[0]['rv']['op'])['v']
+                # every other arm assigns the opposite constant
+                others = {x for o, x in sw.edges.items() if x != t}
+                opp = all(any(st['k'] == 'assign' and st['lhs'] == consts[0]['lhs'] and (op_const(st['rv'].get('op', ['?'])) or {}).get('v') is (not val) for st in body.blocks[x]['stmts']) for x in others)
+                if opp:
+                    out.append((bsw.b, bsw.target(val)))
+                    continue
+        out.append((sw.b, t))
+    return out
